@@ -36,8 +36,20 @@ mod proofs {
             Err(_) => assert!(clamp_spec(b) != b),      // complete: every clamped scalar is accepted (clamped => bit 254 set => non-zero)
         }
     }
+    /// C11 only (validity, not canonicity): an accepted Curve25519 private key is never the zero scalar, whatever spelling was accepted
     #[kani::proof]
     #[kani::stub(zeroize::optimization_barrier, noop_barrier)]
+    fn x25519_sk_nonzero() {
+        let b: [u8; 32] = kani::any();
+        if let Ok(sk) = <Curve25519 as KeGroup>::deserialize_sk(&b) {
+            assert!(sk != [0u8; 32]);
+            assert!(!bool::from(<Curve25519 as KeGroup>::is_zero_scalar(sk)));
+        }
+    }
+    #[kani::proof]
+    #[kani::unwind(34)]
+    #[kani::stub(zeroize::optimization_barrier, noop_barrier)]
+    #[kani::stub(curve25519_dalek::montgomery::MontgomeryPoint::mul_clamped, mul_clamped_stub)]
     fn x25519_sk_decode_length() {
         // any slice whose length is not 32 is refused
         let buf: [u8; 40] = kani::any();
@@ -93,6 +105,18 @@ mod proofs {
         while i < 7 { if c == SMALL_ORDER[i] { hit = true; } i += 1; }
         hit
     }
+    /// C10 / C04 (canonicity only): whatever public-key bytes are accepted are the bytes that enter transcripts and re-encodings
+    #[kani::proof]
+    #[kani::unwind(34)]
+    #[kani::stub(zeroize::optimization_barrier, noop_barrier)]
+    #[kani::stub(curve25519_dalek::montgomery::MontgomeryPoint::mul_clamped, mul_clamped_stub)]
+    fn x25519_pk_canonical() {
+        let b: [u8; 32] = kani::any();
+        if let Ok(pk) = <Curve25519 as KeGroup>::deserialize_pk(&b) {
+            assert!(<Curve25519 as KeGroup>::serialize_pk(pk).as_slice() == &b[..]);
+        }
+    }
+
     /// contract of dalek's `mul_clamped` played by the stub: a clamped scalar is a multiple of the cofactor 8, so the product with a
     /// small-order point is the identity; for any other point it is some non-identity point (arbitrary here)
     fn mul_clamped_stub(p: MontgomeryPoint, _bytes: [u8; 32]) -> MontgomeryPoint {
@@ -141,17 +165,29 @@ mod proofs {
         assert!(<Ristretto255 as KeGroup>::deserialize_pk(&buf[..l]).is_err());
         assert!(<Ristretto255 as KeGroup>::deserialize_sk(&buf[..l]).is_err());
     }
-    /// scalars: zero is refused, accepted bytes re-encode to themselves (real dalek canonical check and reduction)
+    /// C10 (canonicity): accepted bytes re-encode to themselves (real dalek canonical check and reduction) - hence are below the group order
     #[kani::proof]
     #[kani::stub(zeroize::optimization_barrier, noop_barrier)]
     fn ristretto_sk_decode() {
         let b: [u8; 32] = kani::any();
         match <Ristretto255 as KeGroup>::deserialize_sk(&b) {
             Ok(sk) => {
-                assert!(b != [0u8; 32]);
-                assert!(!bool::from(<Ristretto255 as KeGroup>::is_zero_scalar(sk)));
                 assert!(<Ristretto255 as KeGroup>::serialize_sk(sk).as_slice() == &b[..]);
                 assert!(b[31] <= 0x10);        // below the group order l = 2^252 + 27742...: the top byte of a canonical scalar is at most 0x10
+            }
+            Err(_) => {}
+        }
+    }
+    /// C11 (validity): zero is refused, and so is every encoding whose top byte exceeds that of the group order
+    #[kani::proof]
+    #[kani::stub(zeroize::optimization_barrier, noop_barrier)]
+    fn ristretto_sk_valid() {
+        let b: [u8; 32] = kani::any();
+        match <Ristretto255 as KeGroup>::deserialize_sk(&b) {
+            Ok(sk) => {
+                assert!(b != [0u8; 32]);
+                assert!(!bool::from(<Ristretto255 as KeGroup>::is_zero_scalar(sk)));
+                assert!(b[31] <= 0x10);
             }
             Err(_) => {}
         }
